@@ -632,13 +632,80 @@ for _np, _env in PIPESETS.items():
             CYCLES["proc:%dpipes:%s:%s" % (_np, _order, "kept" if _kept else "dropped")] = (
                 "matrix", _body) + ((RESOURCE_METRICS,) if _kept else ())
 
+# ---- subprocess redirection matrix (session 4d): {redirection shape of the three stdio slots, INCLUDING sources that are themselves a
+#      standard descriptor ({:err stdout}, {:out stderr}, {:in stderr} ...: the only case in which os_execute_impl makes close-on-exec
+#      duplicates, tmp_handles)} x {the spawn succeeds, fails: missing program / non-executable file / bad :cd} x {os/spawn, os/execute}.
+#      A failed posix_spawn leaves through `if (status) janet_panicf`, a different exit than every argument / pipe error; whatever the
+#      call created before (pipe ends, duplicates) must be gone on that exit too.
+#   source kind -> (setup, expression, teardown); {K} = slot name, {M} = open mode of the slot
+REDIR_SOURCES = {
+    "pipe": ("", ":pipe", ""),                      # os/spawn only
+    "same-as-out": ("", ":out", ""),                # :err only, os/spawn only
+    "stdin": ("", "stdin", ""), "stdout": ("", "stdout", ""), "stderr": ("", "stderr", ""),
+    "file": ('(def f-{K} (file/open "/dev/null" :{M}))', "f-{K}", "(file/close f-{K})"),
+    "stream": ('(def s-{K} (os/open "/dev/null" :{M}))', "s-{K}", "(ev/close s-{K})"),
+}
+REDIR_SLOTS = (("in", "r"), ("out", "w"), ("err", "w"))
+REDIR_SHAPES = []        # (in, out, err) source kinds, None = slot not redirected
+for _slot in range(3):
+    for _kind in ("pipe", "stdin", "stdout", "stderr", "file", "stream"):
+        REDIR_SHAPES.append(tuple(_kind if j == _slot else None for j in range(3)))
+REDIR_SHAPES += [
+    (None, None, "same-as-out"), (None, "pipe", "same-as-out"), (None, "stderr", "same-as-out"), ("pipe", "stderr", "same-as-out"),
+    (None, "stderr", "stdout"),              # the two swapped: two duplicates
+    ("stdin", "stdout", "stderr"),           # every slot its own descriptor: no duplicate
+    ("stderr", "stdin", "stdin"), ("stdout", "stderr", "stdout"),     # three duplicates
+    ("pipe", "pipe", "stdout"), ("pipe", "stdin", "pipe"),            # pipes and duplicates together
+    ("file", "stderr", "file"), ("stream", "stream", "stream"), ("pipe", "pipe", "pipe"),
+]
+#   outcome -> (program, flags, extra dictionary entries, does the call succeed)
+REDIR_OUTCOMES = {
+    "ok": ('["true"]', ":p", "", True),
+    "missing-program": ('["/nonexistent/c20-no-such-binary"]', ":p", "", False),
+    "not-executable": ('["/etc/passwd"]', "", "", False),
+    "bad-cd": ('["true"]', ":p", ' :cd "/nonexistent/c20-no-such-dir"', False),
+}
+
+
+def _redir_body(api, shape, outcome):
+    prog, flags, extra, succeeds = REDIR_OUTCOMES[outcome]
+    setup, entries, teardown = [], [], []
+    for (slot, mode), kind in zip(REDIR_SLOTS, shape):
+        if kind is None:
+            continue
+        s, e, t = (x.replace("{K}", slot).replace("{M}", mode) for x in REDIR_SOURCES[kind])
+        if s:
+            setup.append(s)
+            teardown.append(t)
+        entries.append(":%s %s" % (slot, e))
+    call = "(os/%s %s %s {%s%s})" % (api, prog, flags or ":", " ".join(entries), extra)
+    if not succeeds:
+        use = '(assert (= :err (try (do %s :ok) ([e] :err))) "the call must fail")' % call
+    elif api == "spawn":
+        use = "(def p %s) (assert (= 0 (os/proc-wait p))) (os/proc-close p)" % call
+    else:
+        use = "(assert (= 0 %s))" % call
+    return "".join("\n  " + x for x in setup + [use] + teardown)
+
+
+for _api in ("spawn", "execute"):
+    for _shape in REDIR_SHAPES:
+        if _api == "execute" and ("pipe" in _shape or "same-as-out" in _shape):
+            continue        # :pipe / :out are os/spawn's
+        for _outcome in REDIR_OUTCOMES:
+            CYCLES["redir:%s:%s:%s" % (_api, ",".join(k or "-" for k in _shape), _outcome)] = (
+                "redir-ok" if _outcome == "ok" else "redir-fail", _redir_body(_api, _shape, _outcome))
+
 COST_N = {  # (quick N, thorough N)
     "cheap": (500, 5000),
     "net": (300, 2500),
     "proc": (100, 800),
     "thread": (80, 600),
     "matrix": (60, 400),
+    "redir-ok": (40, 300),
+    "redir-fail": (60, 600),
 }
+SINGLE_SIZE = ("matrix", "redir-ok", "redir-fail")     # cost classes run at one repeat count in the quick tier (two in thorough)
 
 
 def cycle_script(name, rng, n, warm=10):
